@@ -14,24 +14,9 @@
 (* Values are uniformly shaped records [t, i, s, f, r]; integers are four  *)
 (* 16-bit limbs (module Int64) because TLC integers are 32-bit.            *)
 (***************************************************************************)
-EXTENDS Integers, Sequences, FiniteSets, TLC, Int64
+EXTENDS Integers, Sequences, FiniteSets, TLC, Int64, NanoVal, NanoLib
 
 CONSTANTS MaxDepth     \* documented call-depth limit (extracted: VM_MAX_FRAMES)
-
-L0 == <<0, 0, 0, 0>>
-VInt(l)        == [t |-> "int",    i |-> l,  s |-> "", f |-> <<>>, r |-> 0]
-VBool(b)       == [t |-> "bool",   i |-> IF b THEN I64One ELSE I64Zero, s |-> "", f |-> <<>>, r |-> 0]
-VStr(x)        == [t |-> "str",    i |-> L0, s |-> x,  f |-> <<>>, r |-> 0]
-VArr(ref)      == [t |-> "arr",    i |-> L0, s |-> "", f |-> <<>>, r |-> ref]
-VStruct(n, fs) == [t |-> "struct", i |-> L0, s |-> n,  f |-> fs,   r |-> 0]
-VUnion(n, fs)  == [t |-> "union",  i |-> L0, s |-> n,  f |-> fs,   r |-> 0]   \* s = "Union.Variant"
-VTuple(fs)     == [t |-> "tuple",  i |-> L0, s |-> "", f |-> fs,   r |-> 0]
-VFn(n)         == [t |-> "fn",     i |-> L0, s |-> n,  f |-> <<>>, r |-> 0]
-VVoid          == [t |-> "void",   i |-> L0, s |-> "", f |-> <<>>, r |-> 0]
-\* floats: only literals that are multiples of 1/64 of moderate size (exact in IEEE double), carried as 64 * value;
-\* they can be stored, passed and compared, never computed with or printed (C01 excludes printed floats)
-VFloat(l)      == [t |-> "float",  i |-> l,  s |-> "", f |-> <<>>, r |-> 0]
-IsTrue(v) == v.i[4] = 1
 
 \* ---------------------------------------------------------------- state
 \* env: lexical bindings of the running function, innermost last; glob: globals in declaration order
@@ -103,8 +88,6 @@ CmpOp(op, a, b) ==
 ArithOps == {"+", "-", "*", "/", "%"}
 CmpOps == {"<", "<=", ">", ">="}
 
-\* structural equality of first-order values (== on ints, bools, strings; enums are ints)
-ValEq(a, b) == a.t = b.t /\ a.i = b.i /\ a.s = b.s
 
 BinApply(C, op, x, y, st) ==
    IF op \in ArithOps THEN
@@ -123,12 +106,6 @@ BinApply(C, op, x, y, st) ==
         ELSE RV(VVoid, Fault(st, "stuck:type"))
    ELSE RV(VVoid, Fault(st, "stuck:op"))
 
-\* decimal rendering (int_to_string); small values through TLC's ToString, wide ones by long division
-RECURSIVE DecU(_)
-DecU(a) == IF a[1] = 0 /\ a[2] = 0 /\ a[3] < 16384 THEN ToString(a[3] * 65536 + a[4])
-           ELSE LET qr == I64DivModU(a, <<0, 0, 0, 10>>) IN DecU(qr[1]) \o ToString(qr[2][4])
-Dec(a) == IF I64IsNeg(a) THEN "-" \o DecU(I64Neg(a)) ELSE DecU(a)   \* Neg(MinI) = MinI read as unsigned 2^63: correct
-
 Emit(st, nl, v) == [st EXCEPT !.out = Append(@, [nl |-> nl, t |-> v.t, i |-> v.i, s |-> v.s])]
 Printable(v) == v.t \in {"int", "bool", "str"}
 
@@ -139,16 +116,8 @@ RECURSIVE Eval(_, _, _), EvalList(_, _, _, _, _), EvalListRTL(_, _, _, _, _), Ca
 
 Builtins == {"println", "print", "array_length", "at", "array_set", "array_push", "array_pop",
              "str_length", "int_to_string", "abs", "min", "max", "str_concat", "str_equals",
-             "str_substring", "str_contains", "char_at", "string_from_char", "string_to_int"}
-\* printable ASCII, code 32 .. 126 (the corpus only uses these characters)
-Ascii == " !\"#$%&'()*+,-./0123456789:;<=>?@ABCDEFGHIJKLMNOPQRSTUVWXYZ[\\]^_`abcdefghijklmnopqrstuvwxyz{|}~"
-CharCode(c) == LET hits == {k \in 1..Len(Ascii) : SubSeq(Ascii, k, k) = c} IN IF hits = {} THEN 0 ELSE 31 + CHOOSE k \in hits : TRUE
-Contains(h, n) == n = "" \/ \E k \in 1..(Len(h) - Len(n) + 1) : SubSeq(h, k, k + Len(n) - 1) = n
-IsDigitStr(x) == x # "" /\ \A k \in 1..Len(x) : CharCode(SubSeq(x, k, k)) >= 48 /\ CharCode(SubSeq(x, k, k)) <= 57
-RECURSIVE ParseU(_, _, _)
-ParseU(x, k, acc) == IF k > Len(x) THEN acc
-                     ELSE ParseU(x, k + 1, I64Add(I64Mul(acc, <<0, 0, 0, 10>>), <<0, 0, 0, CharCode(SubSeq(x, k, k)) - 48>>))
-
+             "str_substring", "str_contains", "char_at", "string_from_char", "string_to_int",
+             "map_new", "map_put", "map_get", "map_has", "map_size", "map_length", "map_remove"} \cup LibBuiltins
 \* arguments strictly left to right (SPECIFICATION 4.9)
 EvalList(C, es, k, acc, st) ==
    IF k > Len(es) \/ Bad(st) THEN [vs |-> acc, st |-> st]
@@ -367,6 +336,38 @@ Builtin(C, name, vs, st) ==
             ELSE LET lt == I64Lt(vs[1].i, vs[2].i) IN
                  IF name = "min" /\ HasDev(C, "VM_MIN_WRONG") THEN RV(VInt(IF lt THEN vs[2].i ELSE vs[1].i), st)
                  ELSE RV(VInt(IF (name = "min") = lt THEN vs[1].i ELSE vs[2].i), st)
+     [] name = "map_new" ->
+            IF n # 0 THEN RV(VVoid, Fault(st, "stuck:arity"))
+            ELSE RV(VMap(Len(st.store) + 1, ""), [st EXCEPT !.store = Append(@, <<>>)])
+     [] name = "map_put" ->             \* insert or update; aliases see it (reference semantics, as for arrays)
+            IF n # 3 \/ vs[1].t # "map" \/ vs[2].t \notin {"int", "str"} THEN RV(VVoid, Fault(st, "stuck:type"))
+            ELSE LET es == ArrOf(st, vs[1])
+                     hits == {j \in 1..Len(es) : ValEq(es[j].f[1], vs[2])}
+                     ent == VTuple(<<vs[2], vs[3]>>) IN
+                 RV(VVoid, [st EXCEPT !.store[vs[1].r] = IF hits = {} THEN Append(es, ent)
+                                                          ELSE [es EXCEPT ![CHOOSE j \in hits : TRUE] = ent]])
+     [] name = "map_get" ->             \* STDLIB: the value, or the default of the value type (0 or "") if the key is missing
+            IF n # 2 \/ vs[1].t # "map" \/ vs[2].t \notin {"int", "str"} THEN RV(VVoid, Fault(st, "stuck:type"))
+            ELSE LET es == ArrOf(st, vs[1])
+                     hits == {j \in 1..Len(es) : ValEq(es[j].f[1], vs[2])} IN
+                 IF hits # {} THEN RV(es[CHOOSE j \in hits : TRUE].f[2], st)
+                 ELSE IF vs[1].s = "int" THEN RV(VInt(I64Zero), st)
+                 ELSE IF vs[1].s = "str" THEN RV(VStr(""), st)
+                 ELSE RV(VVoid, Fault(st, "unspecified:map-value-type"))
+     [] name = "map_has" ->
+            IF n # 2 \/ vs[1].t # "map" \/ vs[2].t \notin {"int", "str"} THEN RV(VVoid, Fault(st, "stuck:type"))
+            ELSE RV(VBool(\E j \in 1..Len(ArrOf(st, vs[1])) : ValEq(ArrOf(st, vs[1])[j].f[1], vs[2])), st)
+     [] name \in {"map_size", "map_length"} ->
+            IF n # 1 \/ vs[1].t # "map" THEN RV(VVoid, Fault(st, "stuck:type"))
+            ELSE RV(VInt(I64FromNat(Len(ArrOf(st, vs[1])))), st)
+     [] name = "map_remove" ->          \* removes the entry if present
+            IF n # 2 \/ vs[1].t # "map" \/ vs[2].t \notin {"int", "str"} THEN RV(VVoid, Fault(st, "stuck:type"))
+            ELSE LET es == ArrOf(st, vs[1])
+                     keep == {j \in 1..Len(es) : ~ValEq(es[j].f[1], vs[2])} IN
+                 RV(VVoid, [st EXCEPT !.store[vs[1].r] = SelectSeq(es, LAMBDA x : ~ValEq(x.f[1], vs[2]))])
+     [] name \in LibBuiltins ->        \* the standard library (NanoLib.tla): functions of the argument values and the store
+            LET r == LibApply(name, vs, st.store) IN
+            IF r.ok = "ok" THEN RV(r.v, [st EXCEPT !.store = r.store]) ELSE RV(VVoid, Fault(st, r.ok))
      [] OTHER -> RV(VVoid, Fault(st, "stuck:builtin"))
 
 \* a block opens a scope: bindings made inside disappear at its end (8.2)
@@ -393,7 +394,8 @@ Exec(C, s, st0) ==
    IF Bad(st) THEN RS("n", VVoid, st) ELSE
    CASE s.k = "let" -> LET r == Eval(C, s.a[1], st) IN
                        IF Bad(r.st) THEN RS("n", VVoid, r.st)
-                       ELSE RS("n", VVoid, [r.st EXCEPT !.env = Append(@, [n |-> s.s, v |-> r.v])])
+                       ELSE LET v == IF r.v.t = "map" /\ r.v.s = "" THEN [r.v EXCEPT !.s = MapValTy(s.t)] ELSE r.v IN   \* the annotation fixes a new map's value type
+                            RS("n", VVoid, [r.st EXCEPT !.env = Append(@, [n |-> s.s, v |-> v])])
      [] s.k = "set" -> LET r == Eval(C, s.a[1], st) IN
                        IF Bad(r.st) THEN RS("n", VVoid, r.st) ELSE RS("n", VVoid, SetVar(r.st, s.s, r.v))
      [] s.k = "expr" -> LET r == Eval(C, s.a[1], st) IN RS("n", VVoid, r.st)
